@@ -76,6 +76,13 @@ Theorem C11_what_a_sweep_wipes_reaches_nothing_whose_release_is_observable :
 Proof. exact swept_reaches_nothing_observable. Qed.
 Print Assumptions C11_what_a_sweep_wipes_reaches_nothing_whose_release_is_observable.
 
+(* the rule keeps nothing beyond that: whatever is in the kept set is a seed (an observable or a live object) or reaches one *)
+Theorem C11_the_kept_set_holds_only_what_reaches_a_seed :
+  forall (children : nat -> list nat) (nodes : list nat) fuel seeds Q,
+    pin children nodes fuel seeds = Some Q -> forall l, In l Q -> exists s, In s seeds /\ reaches children l s.
+Proof. exact pinned_only_what_reaches_a_seed. Qed.
+Print Assumptions C11_the_kept_set_holds_only_what_reaches_a_seed.
+
 (* non-vacuity: garbage 1 holds live plain 2, which holds observable 3; unrelated garbage 4 is the only thing outside *)
 Example ex_kept_through_live :
   pin (fun l => match l with 1 => [2] | 2 => [3] | _ => [] end)%nat [1; 2; 3; 4]%nat 5 [3]%nat = Some [3; 2; 1]%nat.
